@@ -57,7 +57,7 @@ def post(sim, h):
             if u["out"] is not None:
                 # every accepted step: number of consecutive refusals within one euler step never exceeded the budget
                 run_len = 0
-                for dt_a, refused, inj in u["attempts"]:
+                for dt_a, refused, inj, _it in u["attempts"]:
                     if refused:
                         run_len += 1
                         limit = (budget + 1) if adaptive else 0
@@ -69,7 +69,7 @@ def post(sim, h):
                 continue
             # unfinished update: it must be the last one and the run must have raised
             refused_tail = 0
-            for dt_a, refused, inj in reversed(u["attempts"]):
+            for dt_a, refused, inj, _it in reversed(u["attempts"]):
                 if refused:
                     refused_tail += 1
                 else:
